@@ -472,6 +472,13 @@ func (idx *MergeSetIndex) getIndexSearch() *indexSearch {
 	is := v.(*indexSearch)
 	is.ts.Init(idx.tb)
 	is.idx = idx
+	// the search objects are pooled across all indexes of the process: never keep another index's deleted set
+	is.deleted = nil
+	if dms := idx.DeleteMergeSet(); dms != nil {
+		if set, ok := dms.deletedTSIDs.Load().(*uint64set.Set); ok {
+			is.deleted = set
+		}
+	}
 
 	return is
 }
@@ -482,6 +489,7 @@ func (idx *MergeSetIndex) putIndexSearch(is *indexSearch) {
 	is.mp.Reset()
 	is.vrp.Reset()
 	is.idx = nil
+	is.deleted = nil
 	is.tfs = is.tfs[:0]
 	indexSearchPool.Put(is)
 }
